@@ -97,6 +97,27 @@ def p_same_b(e, f):
     return e.b == f.b
 
 
+# fault injection for C04: when armed, the predicate raises at its j-th call (counted from 1)
+FAULT = {"armed": False, "calls": 0, "at": 0}
+
+
+class InjectedFault(RuntimeError):
+    pass
+
+
+@predicate
+def p_flaky(e, n):
+    if FAULT["armed"]:
+        FAULT["calls"] += 1
+        if FAULT["calls"] == FAULT["at"]:
+            raise InjectedFault(f"injected fault at call {FAULT['at']}")
+    return e.a >= n
+
+
+def py_p_flaky(e, n):
+    return e.a >= n
+
+
 def py_p_a_ge(e, n):
     return e.a >= n
 
@@ -126,7 +147,7 @@ class BLess(Predicate):
         return self.e.b < self.f.b
 
 
-FUNC_PREDS = {"p_a_ge": (p_a_ge, py_p_a_ge), "p_a_lt": (p_a_lt, py_p_a_lt), "p_same_b": (p_same_b, py_p_same_b)}
+FUNC_PREDS = {"p_flaky": (p_flaky, py_p_flaky), "p_a_ge": (p_a_ge, py_p_a_ge), "p_a_lt": (p_a_lt, py_p_a_lt), "p_same_b": (p_same_b, py_p_same_b)}
 CLASS_PREDS = {"IsBig": (IsBig, lambda e: e.k >= 2), "BLess": (BLess, lambda e, f: e.b < f.b)}
 
 
